@@ -249,6 +249,8 @@ def run(chk, prog):
         if not f.get("body"):
             continue
         idx = None
+        asg_count = None
+        local_decl = {}
         for x in A.walk(f["body"]):
             if x["k"] in ("BinaryOperator", "CompoundAssignOperator") and x.get("op") in ("%", "/", "%=", "/=") and is_integral(x.get("ctype")):
                 d = A.strip(x["c"][1])
@@ -258,17 +260,32 @@ def run(chk, prog):
                 if idx is None:
                     idx = A.index(f)
                 dtxt = A.show(d).replace(" ", "")
+                # the divisor may be a name for another value (const hsize_t n = dims[0];): a test of that value is a test of the divisor
+                dalts = [dtxt]
+                dd_ = A.declref(d)
+                hops_ = 0
+                while dd_ is not None and hops_ < 3:
+                    if asg_count is None:
+                        asg_count = I._count_assignments(f)
+                        local_decl = {v_["decl"]: v_ for st_ in A.walk(f["body"]) if st_["k"] == "DeclStmt" for v_ in st_["decls"] if v_.get("k") == "VarDecl"}
+                    loc_ = local_decl.get(dd_.get("decl"))
+                    if loc_ is None or "init" not in loc_ or asg_count.get(dd_["decl"], 0) != 0:
+                        break
+                    ini_ = A.strip(loc_["init"])
+                    dalts.append(A.show(ini_).replace(" ", ""))
+                    dd_ = A.declref(ini_)
+                    hops_ += 1
                 guarded = False
                 # (a) left operand of an enclosing && tests the divisor
                 cur, par = x, idx[1].get(x["id"])
                 while par is not None and par["k"] not in ("CompoundStmt",):
                     if par["k"] == "BinaryOperator" and par.get("op") == "&&" and cur["id"] in {y["id"] for y in A.walk(par["c"][1])}:
                         lt = A.show(par["c"][0]).replace(" ", "")
-                        if any(t in lt for t in (dtxt + ">0", dtxt + "!=0", "0<" + dtxt, "0!=" + dtxt)):
+                        if any(t in lt for dt_ in dalts for t in (dt_ + ">0", dt_ + "!=0", "0<" + dt_, "0!=" + dt_)):
                             guarded = True
                     if par["k"] == "IfStmt" and cur["id"] in {y["id"] for y in A.walk(par["then"])}:
                         ct = A.show(par["cond"]).replace(" ", "")
-                        if any(t in ct for t in (dtxt + ">0", dtxt + "!=0", "0<" + dtxt)):
+                        if any(t in ct for dt_ in dalts for t in (dt_ + ">0", dt_ + "!=0", "0<" + dt_)):
                             guarded = True
                     cur, par = par, idx[1].get(par["id"])
                 # (b) an earlier `if (... divisor == 0 ...) throw/return` in an enclosing block
@@ -287,7 +304,7 @@ def run(chk, prog):
                                     else:
                                         disj.append(A.show(n_).replace(" ", ""))
                                 split_or(st["cond"])
-                                if any(t in (dtxt + "==0", "0==" + dtxt, "(" + dtxt + "==0)") for t in disj):
+                                if any(t in (dt_ + "==0", "0==" + dt_, "(" + dt_ + "==0)") for t in disj for dt_ in dalts):
                                     guarded = True
                 chk.check(guarded, "R5", A.loc(f, x), "%s: `%s` is evaluated only when the divisor %s was tested to be non-zero" % (f["name"], A.show(x)[:50], dtxt),
                           "%s:unguarded-division:%s" % (f["qname"], dtxt))
@@ -333,8 +350,16 @@ def run(chk, prog):
     chk.check(sp.expand(ext_hinfo_kick - N * B * ip_) == 0, "R1", kfn.where, "KickMap allocates N*B*it source-map entries (%s)" % mem, "KickMap:hinfo-extent:%s" % mem)
     smc = [c for c in prog.fns("vfps::SourceMap::SourceMap") if len(c["params"]) == 8][0]
     al = [i for i in smc["inits"] if i.get("target") == "_hinfo"]
-    ok = len(al) == 1 and "std::max(memsize" in A.show(al[0]["expr"]).replace(" ", "")
-    chk.check(ok, "R1", smc.where, "SourceMap allocates max(memsize,16) entries for _hinfo", "SourceMap:hinfo-alloc")
+    ok = False
+    if len(al) == 1:
+        ne = [x for x in A.walk(al[0]["expr"]) if x["k"] == "CXXNewExpr" and x.get("is_array") and isinstance(x.get("array_size"), dict)]
+        if len(ne) == 1:
+            ssm = I.Scanner(smc)
+            ssm.run()
+            v = ssm._try(ne[0]["array_size"])      # helper functions are looked into
+            msz = sp.Symbol("memsize", real=True)
+            ok = v is not None and (sp.expand(v - msz) == 0 or (v.func == sp.Max and msz in v.args and all(a_ == msz or (a_.is_Integer and a_ >= 0) for a_ in v.args)))
+    chk.check(ok, "R1", smc.where, "SourceMap allocates at least memsize entries for _hinfo (max(memsize, const))", "SourceMap:hinfo-alloc")
     sz = {sp.Symbol("_meshsize_kd", real=True): N, sp.Symbol("_meshsize_pd", real=True): N, it_: ip_}
     rs = [c for c in ks.calls if c.callee and c.callee.endswith("::resize") and A.this_field(A.call_object(c.node)) == "_offset"]
     A.require(len(rs) == 1 and rs[0].args[0] is not None, "KickMap ctor: _offset.resize not found")
